@@ -66,8 +66,8 @@ Guards(ty) ==
   ELSE IF Tier = "quick"
   THEN {<<S, FewSans(ty)>> : S \in Pairs(ty)}
        \cup {<<S, AllSans(ty)>> : S \in Singles(ty) \cup {S \cup {Pred1} : S \in Singles(ty)} \cup {{Pred1}}}
-  ELSE {<<S, AllSans(ty)>> : S \in Pairs(ty) \cup {S \cup {Pred1} : S \in Pairs(ty)}
-                                  \cup Singles(ty) \cup {S \cup {Pred1} : S \in Singles(ty)} \cup {{Pred1}}}
+  ELSE {<<S, FewSans(ty)>> : S \in Pairs(ty) \cup {S \cup {Pred1} : S \in Pairs(ty)}}
+       \cup {<<S, AllSans(ty)>> : S \in Singles(ty) \cup {S \cup {Pred1} : S \in Singles(ty)} \cup {{Pred1}}}
 
 DeclSpace ==
   UNION {
